@@ -94,6 +94,10 @@ theorem dyn_covered : Gen.dynNames.all (fun n => handNames.contains n) = true :=
 `emitBindingSet` transcribes. -/
 theorem emitSetP_pops : Gen.setPPopsSloppyConst = true := by decide
 
+/-- TIE 4c: `enterFinally` disarms both the finally and the catch position of the frame (fix 379f30d) — what the
+machine's `enterFinally` step transcribes. -/
+theorem enterFinally_clears : Gen.enterFinallyClears = ["catchPos", "finallyPos"] := by decide
+
 /-- TIE 5: the classifier's case lists. -/
 theorem exceptionFromValue_cases :
     Gen.exceptionFromValueCases = ["*Object", "Value", "*Exception", "typeError", "referenceError", "rangeError", "syntaxError"]
